@@ -65,7 +65,7 @@ func init() {
 		"time.Now":                         icZero,
 		"github.com/klauspost/compress/gzhttp.Transport": icZero,
 		"time.Since":                       icConstInt(1),
-		"time.Sleep":                       icNop,
+		"time.Sleep":                       icSleep,
 		"(*sync.Mutex).Lock":               icMutexLock,
 		"(*sync.Mutex).Unlock":             icMutexUnlock,
 		"(*sync.Once).Do":                  icOnceDo,
@@ -330,6 +330,20 @@ func (e *Engine) intrinsic(fr *frame, fn *ssa.Function, args []Value, c *ssa.Cal
 		// the text is a function of symbolic input (not a constant)
 		sv := args[0].(*StringV)
 		return e.tt.Bool(!e.normStr(sv).conc)
+	case "Scheduled":
+		// scheduled mode: goroutines become engine threads; (preemption budget, scheduling-point bound)
+		b := int(e.mustConst(args[0].(*Term), "Scheduled budget"))
+		mp := int(e.mustConst(args[1].(*Term), "Scheduled bound"))
+		if e.cfg.Replay != nil {
+			return nil
+		}
+		e.threads = newThreadState(b, mp)
+		return nil
+	case "Yield":
+		if e.threads != nil {
+			e.threads.yield(e, "yield")
+		}
+		return nil
 	case "RaceRecord":
 		on := args[0].(*Term) == e.tt.True
 		if e.race == nil {
@@ -1118,9 +1132,30 @@ func icAtomicLoad(e *Engine, fr *frame, fn *ssa.Function, args []Value, c *ssa.C
 	return e.load(args[0].(*Pointer), nil, e.curPos()), true
 }
 
+func icSleep(e *Engine, fr *frame, fn *ssa.Function, args []Value, c *ssa.CallCommon) (Value, bool) {
+	if e.threads != nil {
+		e.threads.sleep(e)
+	}
+	return nil, true
+}
+
 func icErrgroupGo(e *Engine, fr *frame, fn *ssa.Function, args []Value, c *ssa.CallCommon) (Value, bool) {
 	g := args[0].(*Pointer)
 	f := args[1].(*Closure)
+	if e.threads != nil {
+		ts := e.threads
+		cnt := ts.groups[g.cell]
+		if cnt == nil {
+			cnt = new(int)
+			ts.groups[g.cell] = cnt
+		}
+		*cnt++
+		ts.spawnFn(e, f.fn.Name(), func() {
+			e.runGroupFn(nil, g, f)
+			*cnt--
+		})
+		return nil, true
+	}
 	if e.cfg.GoOrder == 1 {
 		e.pendingBy[g.cell] = append(e.pendingBy[g.cell], f)
 		return nil, true
@@ -1140,6 +1175,12 @@ func (e *Engine) runGroupFn(fr *frame, g *Pointer, f *Closure) {
 
 func icErrgroupWait(e *Engine, fr *frame, fn *ssa.Function, args []Value, c *ssa.CallCommon) (Value, bool) {
 	g := args[0].(*Pointer)
+	if e.threads != nil {
+		if cnt := e.threads.groups[g.cell]; cnt != nil {
+			e.threads.block(e, func() bool { return *cnt == 0 }, "errgroup.Wait")
+		}
+		return fieldCell(e, g, "err").v, true
+	}
 	if ps := e.pendingBy[g.cell]; len(ps) > 0 {
 		delete(e.pendingBy, g.cell)
 		for i := len(ps) - 1; i >= 0; i-- {
